@@ -213,3 +213,80 @@ Example find_in_nonvacuous :
   let t := Node 0 0 11 [Node 1 0 11 [Node 2 0 1 []; Node 3 4 11 [Node 4 4 5 []; Node 5 6 7 []; Node 6 9 11 []]]] in
   find_in t 5 11 = Some 5 /\ find_in t 4 11 = Some 3 /\ find_in t 0 11 = Some 0 /\ find_in t 7 8 = None /\ find_in t 2 7 = Some 4.
 Proof. repeat split; reflexivity. Qed.
+
+(* ---- allow_exact = 'top' / False: where on the descent path of the default search they stop ---- *)
+Section Modes.
+  Variables a b : nat.
+
+  Lemma scan_m_scan m : forall fuel todo,
+    scan_m m fuel a b todo =
+      match scan fuel a b todo with
+      | Stay => StayM
+      | Into x => if exact x a b then match m with MExact => IntoM x | MTop => StopM x | MStrict => StayM end else IntoM x
+      end.
+  Proof.
+    induction fuel as [|f IH]; intros todo; [reflexivity|].
+    destruct todo as [|x rest]; [reflexivity|]. cbn [scan_m scan].
+    destruct (Nat.leb (en x) a); [apply IH|]. destruct (Nat.ltb a (st x)); [reflexivity|]. destruct (Nat.ltb (en x) b); [apply IH|]. reflexivity.
+  Qed.
+
+  Lemma last_indep (l : list tree) : forall y d d', last (y :: l) d = last (y :: l) d'.
+  Proof. induction l as [|z l IH]; intros y d d'; [reflexivity|]. change (last (y :: z :: l) d) with (last (z :: l) d). change (last (y :: z :: l) d') with (last (z :: l) d'). apply IH. Qed.
+
+  Lemma last_cons (l : list tree) x d : last (x :: l) d = last l x.
+  Proof. destruct l as [|y r]; [reflexivity|]. change (last (x :: y :: r) d) with (last (y :: r) d). apply last_indep. Qed.
+
+  Lemma descend_last : forall fuel self, descend fuel a b self = last (path fuel a b self) self.
+  Proof.
+    induction fuel as [|f IH]; intros self; [reflexivity|]. cbn [descend path].
+    destruct (scan (S (sizes (kids self))) a b (kids self)) as [|x]; [reflexivity|].
+    rewrite IH. symmetry. apply last_cons.
+  Qed.
+
+  Theorem descend_exact_mode : forall fuel self, descend_m MExact fuel a b self = descend fuel a b self.
+  Proof.
+    induction fuel as [|f IH]; intros self; [reflexivity|]. cbn [descend_m descend]. rewrite scan_m_scan.
+    destruct (scan (S (sizes (kids self))) a b (kids self)) as [|x]; [reflexivity|].
+    destruct (exact x a b); apply IH.
+  Qed.
+
+  (* 'top': the first node on the path whose location is exactly the span, else where the default search ends *)
+  Theorem descend_top : forall fuel self,
+    descend_m MTop fuel a b self = first_or (fun x => exact x a b) (path fuel a b self) (last (path fuel a b self) self).
+  Proof.
+    induction fuel as [|f IH]; intros self; [reflexivity|]. cbn [descend_m path]. rewrite scan_m_scan.
+    destruct (scan (S (sizes (kids self))) a b (kids self)) as [|x]; [reflexivity|].
+    cbn [first_or]. destruct (exact x a b); [reflexivity|]. rewrite IH. reflexivity.
+  Qed.
+
+  (* False: the node in front of the first exact one on the path, else where the default search ends *)
+  Theorem descend_strict : forall fuel self,
+    descend_m MStrict fuel a b self = before_first (fun x => exact x a b) (path fuel a b self) self.
+  Proof.
+    induction fuel as [|f IH]; intros self; [reflexivity|]. cbn [descend_m path]. rewrite scan_m_scan.
+    destruct (scan (S (sizes (kids self))) a b (kids self)) as [|x]; [reflexivity|].
+    cbn [before_first]. destruct (exact x a b); [reflexivity|]. apply IH.
+  Qed.
+
+  (* on a well-formed tree the path is a chain: every node on it is a child of the one before and holds the span *)
+  Inductive chain : tree -> list tree -> Prop :=
+  | chain_nil t : chain t []
+  | chain_cons t x r : In x (kids t) -> holds a b x -> chain x r -> chain t (x :: r).
+
+  Theorem path_is_chain : forall fuel self, size self <= fuel -> wf self = true -> chain self (path fuel a b self).
+  Proof.
+    induction fuel as [|f IH]; intros self Hf Hw; [constructor|]. cbn [path].
+    destruct (wf_kids self Hw) as [Ho Hk].
+    rewrite (scan_is_lscan a b (kids self) (st self)) by (try assumption; lia).
+    destruct (lscan a b (kids self)) as [|x] eqn:E; [constructor|].
+    destruct (lscan_into a b _ _ E) as [Hin Hh].
+    constructor; [exact Hin|exact Hh|]. apply IH; [pose proof (size_child self x Hin); lia|exact (wf_child self x Hw Hin)].
+  Qed.
+End Modes.
+
+Example modes_nonvacuous :
+  (* Module [0,9) > Expr [2,5) > Name [2,5); span [2,5) *)
+  let t := Node 0 0 9 [Node 1 0 1 []; Node 2 2 5 [Node 3 2 5 []]] in
+  find_contains_m MExact t 2 5 = Some 3 /\ find_contains_m MTop t 2 5 = Some 2 /\ find_contains_m MStrict t 2 5 = Some 0 /\
+  find_contains_m MTop t 2 4 = Some 3 /\ find_contains_m MStrict (Node 2 2 5 [Node 3 2 5 []]) 2 5 = None /\ find_contains_m MTop (Node 2 2 5 [Node 3 2 5 []]) 2 5 = Some 2.
+Proof. vm_compute. repeat split; reflexivity. Qed.
